@@ -16,17 +16,25 @@ git apply -R $OUT/patch.diff
 ( cd $WT && PYTHONPATH=$WT timeout 900 /venv/bin/python seed/demo.py > $OUT/demo_without_change.txt 2>&1 ); RC_WITHOUT=$?
 git apply $OUT/patch.diff
 echo "demo: with change rc=$RC_WITH, without change rc=$RC_WITHOUT"
-cd /repo
-if ! git diff --quiet; then echo "/repo not clean"; exit 3; fi
-git apply $OUT/patch.diff || { echo "patch does not apply to /repo"; exit 3; }
+# the checks read the tree named by TVERIF_REPO: the scratch worktree with the change applied (equivalent to `git -C /repo apply` + run + `git checkout -- .`,
+# without disturbing other runs that read /repo); set SEED_IN_REPO=1 to do it on /repo itself
 RES=""
+if [ "${SEED_IN_REPO:-0}" = 1 ]; then
+  cd /repo
+  if ! git diff --quiet; then echo "/repo not clean"; exit 3; fi
+  git apply $OUT/patch.diff || { echo "patch does not apply to /repo"; exit 3; }
+  TREE=/repo
+else
+  ( cd $WT && git diff HEAD --stat -- tangelo | tail -1 )
+  [ "$(git -C $WT rev-parse HEAD)" = "$(git -C /repo rev-parse HEAD)" ] || echo "note: worktree HEAD differs from /repo HEAD"
+  TREE=$WT
+fi
 for P in "$@"; do
-  ( cd /verif && ./check $P --tier quick > $OUT/check_$P.txt 2>&1 ); RC=$?
+  ( cd /verif && TVERIF_REPO=$TREE ./check $P --tier quick > $OUT/check_$P.txt 2>&1 ); RC=$?
   NV=$(grep -c "^VIOLATION" $OUT/check_$P.txt)
   FIRST=$(grep -A1 "^VIOLATION" $OUT/check_$P.txt | grep obligation | head -1 | cut -c1-200)
   echo "check $P: exit=$RC violations=$NV $FIRST"
   RES="$RES $P:$RC:$NV"
 done
-git checkout -- .
-git status --short | grep -v egg-info
+if [ "${SEED_IN_REPO:-0}" = 1 ]; then git checkout -- . ; git status --short | grep -v egg-info; fi
 echo "$RC_WITH $RC_WITHOUT $RES" > $OUT/result.txt
